@@ -54,7 +54,9 @@ impl Col for Rgb565 {
         if hi { Rgb565::new(31, 63, 31) } else { Rgb565::new(0, 0, 0) }
     }
     fn nth(i: u32) -> Self {
-        Rgb565::new((31 - (i % 32)) as u8, ((i * 7 + 1) % 64) as u8, ((i * 3 + 2) % 32) as u8)
+        // (the terms with i >> 5, i >> 11 and i >> 16 only matter for i >= 32: no two indices that differ by a
+        // power of two up to 2^20 share a colour, so a colour stream shifted by such a distance is seen)
+        Rgb565::new(((31 - (i % 32) + (i >> 11)) % 32) as u8, ((i * 7 + 1 + (i >> 5) * 3) % 64) as u8, ((i * 3 + 2 + (i >> 5) + (i >> 16) * 5) % 32) as u8)
     }
     const NAME: &'static str = "Rgb565";
 }
@@ -63,7 +65,7 @@ impl Col for Rgb888 {
         if hi { Rgb888::new(255, 255, 255) } else { Rgb888::new(0, 0, 0) }
     }
     fn nth(i: u32) -> Self {
-        Rgb888::new((255 - (i % 256)) as u8, ((i * 7 + 1) % 256) as u8, ((i * 3 + 2) % 256) as u8)
+        Rgb888::new((255 - (i % 256)) as u8, ((i * 7 + 1 + (i >> 8) * 13) % 256) as u8, ((i * 3 + 2 + (i >> 8) * 5 + (i >> 16) * 29) % 256) as u8)
     }
     const NAME: &'static str = "Rgb888";
 }
